@@ -679,6 +679,38 @@ func C11_D2() {
 	c11Run(e)
 }
 
+// C11_FaultAssign: a pending assignment around every operator variant whose
+// lvalue may be a non-lvalue (1 = b, 1 += b, ++1, 1--, ...) or whose operands
+// may fault (a / b with b == 0, a << b with b < 0): "no assignment is
+// performed after the first fault". Forms: x op= F, x op= y = F,
+// x op= 3 + F, x op= F - 5, u = (x op= F).
+func C11_FaultAssign() {
+	inner := shape(true, func(p int) *xnode {
+		if p == 0 {
+			return &xnode{k: xVar, name: "a"}
+		}
+		return &xnode{k: xVar, name: "b"}
+	})
+	inner.paren = nd.Choice(2) == 1
+	op := assignOps[nd.Choice(len(assignOps))]
+	x := func() *xnode { return &xnode{k: xVar, name: "x"} }
+	var e *xnode
+	switch nd.Choice(5) {
+	case 0:
+		e = &xnode{k: xAssign, op: op, l: x(), r: inner}
+	case 1:
+		e = &xnode{k: xAssign, op: op, l: x(), r: &xnode{k: xAssign, op: "=", l: &xnode{k: xVar, name: "u"}, r: inner}}
+	case 2:
+		e = &xnode{k: xAssign, op: op, l: x(), r: &xnode{k: xBinary, op: "+", l: &xnode{k: xLit, lit: "3"}, r: inner}}
+	case 3:
+		e = &xnode{k: xAssign, op: op, l: x(), r: &xnode{k: xBinary, op: "-", l: inner, r: &xnode{k: xLit, lit: "5"}}}
+	case 4:
+		in := &xnode{k: xAssign, op: op, l: x(), r: inner, paren: true}
+		e = &xnode{k: xAssign, op: "=", l: &xnode{k: xVar, name: "u"}, r: in}
+	}
+	c11Run(e)
+}
+
 // C11_Expand: $(( )) goes through the parser and Expand into Eval: the
 // expansion of "$((expr))" is the decimal value of expr, errors surface.
 func C11_Expand() {
